@@ -1222,5 +1222,81 @@ theorem lanczos_writes_prefix (mMax : Nat) (epsCut tol : Rat) (β φ : Nat → R
 example : (lanczosExit false 4 (1 / 1000) (1 / 100) (fun _ => 1) (fun _ => 1)).map (·.writes) = some [0, 1, 2] := by
   decide +kernel
 
+private theorem reads_loop (mMax : Nat) (epsCut tol : Rat) (β φ : Nat → Rat) :
+    ∀ (n j : Nat) (rd wr : List Nat) (ns : Nat), n + j = mMax → (∀ i ∈ rd, i < min j (mMax - 1)) →
+      ∀ i ∈ (lanczosLoop mMax epsCut tol β φ n j rd wr ns).reads,
+        i < min (lanczosLoop mMax epsCut tol β φ n j rd wr ns).k (mMax - 1) := by
+  intro n
+  induction n with
+  | zero =>
+    intro j rd wr ns hnj hrd
+    have hj : j = mMax := by omega
+    subst hj
+    rw [lanczosLoop]
+    split
+    · exact hrd
+    · rename_i h
+      intro i hi
+      have hm : j ≤ 1 := by omega
+      simp only [List.mem_append] at hi
+      rcases hi with hi | hi
+      · exact hrd i hi
+      · have := mem_slice hi; omega
+  | succ n ih =>
+    intro j rd wr ns hnj hrd
+    have hjm : j < mMax := by omega
+    have hrd1 : ∀ i ∈ (if j > 0 then rd ++ [j - 1] else rd), i < min (j + 1) (mMax - 1) := by
+      intro i hi
+      split at hi
+      · rcases List.mem_append.mp hi with h | h
+        · have := hrd i h; omega
+        · have := List.mem_singleton.mp h; omega
+      · have := hrd i hi; omega
+    have hsl : ∀ i ∈ slice (j + 1), i < min (j + 1) (mMax - 1) := by
+      intro i hi
+      have := mem_slice hi; omega
+    simp only [lanczosLoop]
+    generalize (if j > 0 then rd ++ [j - 1] else rd) = rd1 at hrd1 ⊢
+    have fin2 : ∀ i ∈ rd1 ++ slice (j + 1), i < min (j + 1) (mMax - 1) := by
+      intro i hi
+      rcases List.mem_append.mp hi with h | h
+      · exact hrd1 i h
+      · exact hsl i h
+    have fin3 : j < mMax - 1 → ∀ i ∈ rd1 ++ slice (j + 1) ++ [j], i < min (j + 1) (mMax - 1) := by
+      intro hj i hi
+      rcases List.mem_append.mp hi with h | h
+      · exact fin2 i h
+      · have := List.mem_singleton.mp h; omega
+    split_ifs <;> first
+      | exact fin2
+      | exact fin3 (by assumption)
+      | exact ih (j + 1) _ _ _ (by omega) fin2
+      | exact ih (j + 1) _ _ _ (by omega) (fin3 (by assumption))
+      | exact ih (j + 1) _ _ _ (by omega) hrd1
+
+/-- **C19.1c `lanczos_reads_written`** no uninitialised read: every index of `beta` the Lanczos loop of `expm_krylov` reads
+    (`beta[j-1]` in the three-term recurrence, the slice `beta[:k-1]` handed to the eigen-solver, `beta[j]` in the error estimate)
+    lies below `min(k, m_max − 1)`, i.e. is one of the entries the loop has written (`lanczos_writes_prefix`). -/
+theorem lanczos_reads_written (mMax : Nat) (epsCut tol : Rat) (β φ : Nat → Rat) (e : Exit)
+    (h : lanczosExit false mMax epsCut tol β φ = some e) :
+    ∀ i ∈ e.reads, i ∈ e.writes := by
+  have hw := (lanczos_writes_prefix mMax epsCut tol β φ e h).1
+  unfold lanczosExit at h
+  simp only [Bool.false_eq_true, if_false] at h
+  by_cases hm : mMax = 0
+  · simp [hm] at h
+  · rw [if_neg hm] at h
+    have he : e = lanczosLoop mMax epsCut tol β φ mMax 0 [] [] 0 := (Option.some.inj h).symm
+    have hr := reads_loop mMax epsCut tol β φ mMax 0 [] [] 0 rfl (by simp)
+    rw [← he] at hr
+    intro i hi
+    rw [hw, List.mem_range]
+    exact hr i hi
+
+example : (lanczosExit false 4 (1 / 1000) (1 / 100) (fun _ => 1) (fun _ => 1)).map
+      (fun e => e.reads.all (fun i => e.writes.contains i)) = some true ∧
+    (lanczosExit false 4 (1 / 1000) (1 / 100) (fun _ => 1) (fun _ => 1)).map (fun e => decide (e.reads.length > 3)) = some true := by
+  refine ⟨by decide +kernel, by decide +kernel⟩
+
 end Yaqs.Krylov
 
